@@ -65,6 +65,22 @@ CLAIMED.update({
          LEDGER_NOTE + " The ring-only layer restates the executor's advance condition.", "5 C07"),
 })
 
+PROG_NOTE = LEDGER_NOTE + " Three-valued predictions: where the documented semantics are silent (zero-amount proofs, consuming a bucket that backs a proof, duplicate ids) no verdict is asserted."
+CLAIMED.update({
+ "C09": ("exploration", "deterministic simulation with fault injection: generated raw worktop/bucket/proof instruction programs (incl. invalid lifecycles, boundary amounts, injected costing errors) executed on the real engine and compared with a symbolic interpreter; vault changes compared after success",
+         "Generated programs over the worktop/bucket/proof instruction set with boundary amounts: success iff every take is satisfiable, every assertion true, nothing left, nothing used after consumption; on success the account vault balances and id sets equal the symbolic interpreter's.",
+         PROG_NOTE, "5 C09"),
+ "C10": ("exploration", "deterministic simulation: generated interleavings of proof creation / clone / pop / push / drop and withdrawals / burns on fungible and non-fungible account vaults and buckets, max-of-locks reference model, follow-up transaction after faults and failures",
+         "Withdraw / burn of y from a vault succeeds iff y <= balance - max(live locks) and y respects divisibility; overlapping proofs lock the max; proofs beyond the balance fail; after every program (successful, failed or fault-injected) a follow-up transaction withdrawing the full balance must succeed and the stored non-fungible vault amount equals its ids.",
+         PROG_NOTE, "5 C10"),
+ "C36": ("exploration", "deterministic simulation: the generated programs (half of them with deliberately invalid bucket/proof lifecycles) are passed through the static manifest interpreter and executed; static verdict compared with an independent lifecycle tracker and with run-time id-lookup errors",
+         "A manifest whose bucket/proof id lifecycle is invalid (unknown, consumed twice, consumed while locked by a proof, dangling at the end) must be rejected by StaticManifestInterpreter(all rules); an accepted manifest never fails at run time with BucketNotFound / ProofNotFound.",
+         PROG_NOTE + " Only V1 manifests; address reservations, named addresses, blobs and child intents are not generated.", "5 C36"),
+ "C44": ("exploration", "deterministic simulation with clock faults: a simulated consensus driver issues real next_round transactions with skewed, repeated, backward- and far-forward-jumping timestamps and regressing / inconsistent rounds on nodes with randomised genesis consensus configuration; clock model checked after every transaction",
+         "Non-monotone timestamps, non-increasing rounds and inconsistent gap histories must fail and leave (epoch, round, ms, minute) unchanged; successes record exactly the requested round/timestamp or change the epoch by +1 with round 0; the minute clock never decreases and equals ms/60000; get_current_time / compare_current_time at both precisions equal the model.",
+         LEDGER_NOTE.replace("Default simulator genesis.", "Randomised genesis consensus configuration.") + " Instants before 1970 or beyond the last representable minute are not compared (saturation by design).", "5 C44"),
+})
+
 PURE = "pure function of one input value: no schedule, clock, I/O, fault or history for a simulator to own (DESIGN section 6)"
 NOT_APPLICABLE = {
  "C16": "key mapping is a pure bijection on keys; " + PURE,
